@@ -368,4 +368,93 @@ class C11d(Obligation):
                       'self/cls is removed exactly where Python binds it')
 
 
-OBLIGATIONS = [C11a, C11b, C11d]
+import io  # noqa: E402
+import keyword  # noqa: E402
+import tokenize  # noqa: E402
+
+import jedi  # noqa: E402
+
+CALL_CORPUS = [
+    'foo(1, bar(2, 3), (4, 5), [6, baz(7)], "a(b", x=qux(8))\nplain = (1, 2)\n',
+    'obj.method(a)(b).other[0](c, d=e(f))\nprint ("x", end="")\n',
+    '@deco(arg, other(1))\ndef func(p=call(0)):\n    return func(p)(p)\n',
+    'outer(\n    inner(1,\n          2),\n    3)\nclass K(Base(1)):\n    pass\n',
+]
+
+
+def call_brackets(src):
+    """[(open_pos, close_pos_or_None)] of the parentheses that open a CALL, from CPython's tokenizer"""
+    toks = [t for t in tokenize.generate_tokens(io.StringIO(src).readline)
+            if t.type not in (tokenize.NL, tokenize.NEWLINE, tokenize.INDENT, tokenize.DEDENT, tokenize.COMMENT,
+                              tokenize.ENDMARKER)]
+    out = []
+    stack = []
+    for i, t in enumerate(toks):
+        if t.type == tokenize.OP and t.string in '([{':
+            prev = toks[i - 1] if i else None
+            prev2 = toks[i - 2] if i > 1 else None
+            is_call = t.string == '(' and prev is not None and (
+                (prev.type == tokenize.NAME and not keyword.iskeyword(prev.string)) or prev.string in (')', ']'))
+            if is_call and prev2 is not None and prev2.string in ('def', 'class'):
+                is_call = False
+            stack.append((t.start, is_call))
+        elif t.type == tokenize.OP and t.string in ')]}':
+            start, is_call = stack.pop()
+            if is_call:
+                out.append((start, t.start))
+    return out
+
+
+class C11f(Obligation):
+    id = 'C11.f'
+    title = 'bracket_start is the opening parenthesis of the innermost call around the cursor, for every cursor'
+    pattern = 'P4 concrete tree x symbolic cursor; reference from CPython tokenize'
+    interpret_modules = ('jedi', 'parso', 'obligations')
+    loop_bound = 400
+    max_paths = 6000
+    assumptions = (
+        'a corpus of valid call snippets (nested calls, tuples, subscripts, strings containing parentheses, decorators, '
+        'class bases, multi-line calls) parsed natively; (line, column) symbolic within the text; a cursor is inside a '
+        'call when open < cursor <= position of the closing parenthesis; def/class headers show no signature',
+    )
+
+    def configs(self, tier):
+        return [dict(snippet=i) for i in range(2 if tier == 'quick' else len(CALL_CORPUS))]
+
+    def scenario(self, ctx, cfg):
+        src = CALL_CORPUS[cfg['snippet']]
+        script = jedi.Script(src)
+        module, lines = script._module_node, script._code_lines
+        line = ctx.int('line', 1, len(lines))
+        column = ctx.int('column', 0)
+        text = lines[line - 1]
+        ctx.assume(column <= len(text.rstrip('\n')))
+        pos = (line, column)
+        out = ctx.call(helpers.get_signature_details, module, pos)
+        ctx.check(out.exc is None, 'never raises')
+        if out.exc is not None:
+            return
+        got = None if out.value is None else out.value.bracket_leaf.start_pos
+        ctx.observe(got, 'bracket')
+        brackets = call_brackets(src)
+        # innermost call whose parentheses surround the cursor (latest opening position wins)
+        for o, c in brackets:
+            inside = ctx.And(_lt(ctx, o, pos), _le(ctx, pos, c))
+            # no other call bracket opens later and also surrounds the cursor
+            inner = [ctx.And(_lt(ctx, o2, pos), _le(ctx, pos, c2)) for o2, c2 in brackets if o2 > o]
+            innermost = ctx.And(inside, ctx.Not(ctx.Or(*inner))) if inner else inside
+            ctx.check(ctx.implies(innermost, got == o), 'inside a call: bracket_start is its opening parenthesis')
+        if got is not None:
+            ctx.check(ctx.Or(*[ctx.And(got == o, _lt(ctx, o, pos), _le(ctx, pos, c)) for o, c in brackets]),
+                      'a reported bracket is a call parenthesis that surrounds the cursor')
+
+
+def _lt(ctx, a, b):
+    return ctx.Or(a[0] < b[0], ctx.And(a[0] == b[0], a[1] < b[1]))
+
+
+def _le(ctx, a, b):
+    return ctx.Or(a[0] < b[0], ctx.And(a[0] == b[0], a[1] <= b[1]))
+
+
+OBLIGATIONS = [C11a, C11b, C11d, C11f]
